@@ -168,6 +168,25 @@ func sendDeadlineCase(t *testing.T, r *Recorder, c, j int) {
 		return
 	}
 	if firstErr == nil || secondErr != nil {
+		// the deadline did not make the first Send fail: every Send that reported success must then
+		// have been delivered as one intact message
+		okSends := 0
+		for _, e := range []error{firstErr, secondErr} {
+			if e == nil {
+				okSends++
+			}
+		}
+		bad := len(got) != okSends
+		for _, g := range got {
+			if !bytes.Equal(g, data) {
+				bad = true
+			}
+		}
+		if bad {
+			r.Violate("C14/send-reports-success-but-not-delivered",
+				fmt.Sprintf("send deadline 5 s, ACK %d of %d chunks delayed by 10 s: Send returned %v then %v, but Recv results are %s (payload %s)",
+					j, c, firstErr, secondErr, msgsField(got), hx(data)), sc)
+		}
 		r.Case(sc.Name, false, "send-deadline/not-triggered")
 		return
 	}
